@@ -130,6 +130,27 @@ CHECKS["C04"] = dict(
     technique="Coq corollaries of the C17 theorem + differential runs over 3 backends x 3 entries against a reference filter",
     design="7/C04")
 
+CHECKS["C14"] = dict(
+    text="Machine-checked proof (Coq): a derived remote sequence - any chain of column selections, conditions, slices, indices and "
+         "child selections in any order - requests from the server exactly the constraint normal form of its operations (the data a "
+         "fresh client or a lazy stream applying the same selection reads); client-side composition of record slices equals slicing "
+         "in turn. In the value-level proxy model a derivation cannot touch earlier objects; that is what the histories test on the "
+         "real objects: after every step of generated derive/read histories every earlier object is re-read and compared with its "
+         "first read and with the by-name reference; each request is compared with the model's request.",
+    note=TB + "Server side of a request = reference filter (C04), exercised through BaseHandler over a recording transport.",
+    technique="Coq proof (refinement of the client proxy to the C17 normal form, slice-composition law from C03) + history-based differential runs",
+    design="7/C14")
+CHECKS["C18"] = dict(
+    text="Machine-checked proof (Coq): every proxy derived through any chain of operations sends its requests through the session "
+         "of its origin; on the current source every construction of a proxy / function proxy and every GET on behalf of a dataset "
+         "passes a session on (facts re-extracted from the source on every run); the cache-key function gives equal keys only for the "
+         "same request or for the same declared shared constraint under the declared base (by path component) on the same host. "
+         "C14's histories are replayed over plain / cached / consolidated sessions behind a recording adapter with a new-session "
+         "sentinel, plus function-result and DAP4 reads, cached-vs-plain reads and generated URL pairs for the key relation.",
+    note=TB + "Session forwarding facts are syntactic (gen_facts.py); requests-cache's own key modelled as the normalised URL; Earthdata branch not modelled.",
+    technique="Coq proof (invariant over proxy operations; premise on facts regenerated from the source; cache-key case analysis) + recording transport with session sentinel",
+    design="7/C18")
+
 NOT_YET = {
 }
 
